@@ -133,12 +133,14 @@ int cif_packet_create_norm(cif_packet_tp **packet, UChar **names, int avoid_alia
         SET_RESULT(CIF_MEMORY_ERROR);
     } else {
         UChar **name;
+        /* the entry under construction, not (yet) belonging to the packet */
+        struct entry_s *scalar = NULL;
 
         temp_packet->map.normalizer = cif_normalize_item_name;
         temp_packet->map.is_standalone = avoid_aliasing;
         temp_packet->map.head = NULL;
         for (name = names; *name; name += 1) {
-            struct entry_s *scalar = (struct entry_s *) malloc(sizeof(struct entry_s));
+            scalar = (struct entry_s *) malloc(sizeof(struct entry_s));
 
             if (scalar == NULL) {
                 FAIL(soft, CIF_MEMORY_ERROR);
@@ -152,6 +154,7 @@ int cif_packet_create_norm(cif_packet_tp **packet, UChar **names, int avoid_alia
                 }
                 scalar->key_orig = scalar->key;
                 HASH_ADD_KEYPTR(hh, temp_packet->map.head, scalar->key, U_BYTES(scalar->key), scalar);
+                scalar = NULL;
             }
         }
 
@@ -160,6 +163,13 @@ int cif_packet_create_norm(cif_packet_tp **packet, UChar **names, int avoid_alia
         return CIF_OK;
 
         FAILURE_HANDLER(soft):
+        if (scalar != NULL) {
+            /* this entry was not added to the packet */
+            if (avoid_aliasing != 0) {
+                free(scalar->key);
+            }
+            free(scalar);
+        }
         cif_packet_free(temp_packet);
     }
 
